@@ -1576,6 +1576,53 @@ def op_hread_bad(w, op, mods):
                      % (rows, n, len(got) if hasattr(got, "__len__") else -1))
 
 
+def op_observe(w, op, mods):
+    """harmless looks at an open object -- repr, str, len, the row count, the dtype, the mode, the header copy --
+    between the operations that matter: looking must not change anything, and a row count that is reported must be
+    the model's."""
+    run = w.run
+    h = w.handles.get(op["h"])
+    if h is None:
+        raise Skip("no such handle")
+    obj, p = h["obj"], h["path"]
+    m = w.files.get(p)
+    seen = []
+    for what in op["what"]:
+        try:
+            if what == "repr":
+                repr(obj)
+            elif what == "str":
+                str(obj)
+            elif what == "len":
+                seen.append(("len", len(obj)))
+            elif what == "nrows":
+                seen.append(("nrows", obj.nrows if h["kind"] == "Recfile" else obj.get_nrows()))
+            elif what == "dtype":
+                obj.dtype
+            elif what == "mode":
+                obj.get_mode() if h["kind"] == "SFile" else obj.mode
+            elif what == "name":
+                obj.get_filename() if h["kind"] == "SFile" else obj.filename
+            elif what == "header" and h["kind"] == "SFile":
+                obj.get_header()
+        except Exception:
+            pass            # (which of these a half-written object supports is not the subject; values are)
+    run.fault("caller_looked_at_an_open_object")
+    run.event(op.get("c", 0), "observe", p, "ok", ",".join(op["what"]))
+    if m is None or m.get("pending") or w.prop not in ("C01", "C02", "C03", "C04"):
+        return
+    if h["role"] == "r" and m.get("writers", 0) > 0:
+        return
+    for what, v in seen:
+        if isinstance(v, (int, np.integer)) and not isinstance(v, bool):
+            run.checks += 1
+            if int(v) != w.nrows(m):
+                run.fail("rec.observe.nrows", _feat(m, kind=h["kind"], mode=h["mode"]),
+                         "%s of the open %s(%r) object on %s says %d rows, %d were written"
+                         % (what, h["kind"], h["mode"], p, int(v), w.nrows(m)))
+                return
+
+
 _DECOY = (b"SIZE =                    2\n{'_DTYPE': [('decoy', '<i4')], '_VERSION': '1.0'}\nEND\n\n" + b"\x07\x00\x00\x00\x08\x00\x00\x00")
 
 
@@ -1604,6 +1651,6 @@ def op_chdir(w, op, mods):
     run.event(op.get("c", 0), "chdir", "elsewhere" if w.elsewhere else "back", "ok")
 
 
-OPS = {"chdir": op_chdir, "stale": op_stale, "create": op_create, "read": op_read, "header": op_header, "open_w": op_open_w,
+OPS = {"chdir": op_chdir, "observe": op_observe, "stale": op_stale, "create": op_create, "read": op_read, "header": op_header, "open_w": op_open_w,
        "write": op_write, "close": op_close, "append": op_append, "open_r": op_open_r,
        "reopen_obj": op_reopen_obj, "hread": op_hread, "hread_bad": op_hread_bad, "write_ro": op_write_ro}
